@@ -196,6 +196,12 @@ class Interp:
                 if stops is not None and blk in stops and not first:
                     region_out.append((s, blk, prev))
                     break
+                hook = getattr(self, 'loop_hook', None)
+                if hook is not None and prev is not None and visits.get(blk.name, 0) == 0 and blk not in getattr(self, '_active', []):
+                    res = hook(self, fn, s, blk, prev, depth)
+                    if res is not None:
+                        out.extend(res)
+                        break
                 s.trace.append(fn.name + ':' + blk.name)
                 visits = dict(visits)
                 visits[blk.name] = visits.get(blk.name, 0) + 1
